@@ -25,7 +25,7 @@ class Case(object):
     def __init__(self, S, cfg, prefix, hook=None):
         self.S, self.cfg = S, cfg
         self.sched = sim.Schedule(prefix)
-        self.net = sim.SimNet(self.peer)
+        self.net = sim.SimNet(self.peer, truncate=True)   # a datagram socket cuts what recv(n) cannot hold
         self.net.late = cfg.get("wake_late", 0.0)
         self.net.on_recv = self.on_recv
         self.cmds = {}
@@ -92,7 +92,7 @@ class Case(object):
         out = []
         for delay, rc in rs:
             if rc == sim.RC_OK:
-                out.append((delay, sim.reply_bytes(req, rc, (rec.cid, 7, 9), b"re" + struct.pack("<I", rec.cid)), (rec.cid, rc)))
+                out.append((delay, sim.reply_bytes(req, rc, (rec.cid, 7, 9), self.body_of(rec)), (rec.cid, rc)))
             else:
                 out.append((delay, sim.reply_bytes(req, rc), (rec.cid, rc)))
         return out
@@ -106,6 +106,14 @@ class Case(object):
             self.fatal_recv.append(rc)
 
     # ---- the client side -----------------------------------------------------------------------
+    def body_of(self, rec):
+        """the data a reply to this command carries: short, or - in bursts that name a buffer size - a full buffer's worth"""
+        b = b"re" + struct.pack("<I", rec.cid)
+        n = self.cfg["bursts"][rec.burst].get("buffer")
+        if n:
+            b = (b + bytes((rec.cid + 7 * i) % 251 for i in range(n)))[:n]
+        return b
+
     def callback_for(self, rec):
         def cb(ack):
             rid = struct.unpack_from("<I", ack, 14)[0] if len(ack) >= 18 else None
@@ -148,7 +156,7 @@ class Case(object):
             else:
                 calls = (S.scpcall(1, 2, 3, 4, r.cid, r.cid + 1, r.cid + 2, struct.pack("<I", r.cid ^ 0xa5a5a5a5),
                                    self.callback_for(r), r.need - T) for r in recs)
-                conn.send_scp_burst(256, burst["window"], calls)
+                conn.send_scp_burst(burst.get("buffer", 256), burst["window"], calls)
         except S.TimeoutError as e:
             outcome, err = "timeout", e
         except S.FatalReturnCodeError as e:
@@ -169,7 +177,7 @@ class Case(object):
             for (when, rid, body) in r.calls:
                 if when != r.burst:
                     self.bad("callback_outside_burst", "callback of command %d invoked during burst %d" % (r.cid, when))
-                if rid != r.cid or body != b"re" + struct.pack("<I", r.cid):
+                if rid != r.cid or body != self.body_of(r):
                     self.bad("wrong_reply", "callback of command %d was given the reply to command %r" % (r.cid, rid))
             if len(r.calls) > 1:
                 self.bad("callback_twice", "callback of command %d invoked %d times" % (r.cid, len(r.calls)))
@@ -286,6 +294,12 @@ def configs(tier):
                         out.append(("two_bursts", cfg, A7, D))
     out.append(("two_bursts", {"n_tries": 3, "bursts": [{"window": 2, "cmds": [(0, 0), (0.5, 0)]},
                                                         {"api": "send_scp", "window": 1, "cmds": [(0, 0)]}]}, LIGHT, D - 1))
+    # B': consecutive bursts on one connection whose buffer sizes DIFFER, every reply carrying a full buffer of data: each callback is
+    #     given the whole reply to its own command, whatever size the earlier bursts on the connection used
+    for b1, b2 in ((64, 128), (128, 64), (64, 256), (16, 100), (256, 24)):
+        for w in (1, 2):
+            out.append(("two_bursts", {"n_tries": 2, "bursts": [{"window": w, "cmds": [(0, 0)] * 2, "buffer": b1},
+                                                                {"window": w, "cmds": [(0, 0)] * 2, "buffer": b2}]}, LIGHT, 1))
     # C: sequence wrap inside the bound: 3-bit sequence space (module's own seqs(mask=7)); k slow
     # commands (long extra timeout, reply after 40 s) stay outstanding while > 8 further commands pass.
     # Only faults that leave no stale datagram behind (side condition of the known finding D13).
